@@ -545,7 +545,11 @@ def predicates(case, pos, rc, out, err, V, st):
 def run_c(binary, case, root):
     os.makedirs(root, exist_ok=True)
     main, pos, lay = layout(case, root)
-    r = subprocess.run([binary, main], capture_output=True, text=True, env=ASAN_ENV, errors='replace')
+    try:
+        r = subprocess.run([binary, main], capture_output=True, text=True, env=ASAN_ENV, errors='replace', timeout=120)
+    except subprocess.TimeoutExpired as e:
+        # reading a configuration never takes minutes: the parser (or the host range code under it) spins
+        return main, pos, lay, -9, '', 'HUNG: the configuration was not read within 120 s; the process was killed\n'
     return main, pos, lay, r.returncode, r.stdout, r.stderr
 
 
